@@ -3,9 +3,9 @@
   sessions (sequences of calls on one reader / one writer object).
 
   Reader state = what the underlying stream still holds (`input`), the one-byte look-ahead buffer of the code
-  (`buffered`, `__buffered_byte`) and the string pool the reader refers to. `readByteS` / `hasMoreDataS` are the
+  (`buffered`, `__buffered_byte`) and the string pool the reader refers to. `readByteM` / `hasMoreDataM` are the
   code's `read_byte` / `has_more_data` statement for statement; every other read method of the class is written
-  here in terms of `readByteS` exactly as the Python method is written in terms of `read_byte` (and `read_string`
+  here in terms of `readByteM` exactly as the Python method is written in terms of `read_byte` (and `read_string`
   without a pool takes its payload from the stream directly, as the code does). `PyodaProofs/C14Session.lean`
   proves that each of them is the pure reader of `Codec/Prim.lean` applied to the ABSTRACT remaining bytes
   `abs = buffered ++ input` (`*_refines`), and that `has_more_data` never changes `abs` (`peek_pure`).
@@ -48,7 +48,7 @@ abbrev RM := StateT RState R
 
 /-- `read_byte`: the buffered byte if there is one (and the buffer is emptied), else one byte from the stream;
     `InvalidPyodaDataError` at the end of the stream -/
-def readByteS : RM Nat := fun st =>
+def readByteM : RM Nat := fun st =>
   match st.buffered with
   | some b => .ok (b, { st with buffered := none })
   | none =>
@@ -57,7 +57,7 @@ def readByteS : RM Nat := fun st =>
     | b :: r => .ok (b, { st with input := r })
 
 /-- `has_more_data`: true when a byte is buffered; else try to read one byte from the stream and keep it -/
-def hasMoreDataS : RM Bool := fun st =>
+def hasMoreDataM : RM Bool := fun st =>
   match st.buffered with
   | some _ => .ok (true, st)
   | none =>
@@ -67,68 +67,68 @@ def hasMoreDataS : RM Bool := fun st =>
 
 /-- the loop of `__read_varint`; every iteration calls `read_byte`, so `fuel` = one more than the number of bytes
     left is never exhausted (the read fails first) -/
-def readVarintLoopS : Nat → Nat → Nat → RM Nat
+def readVarintLoopM : Nat → Nat → Nat → RM Nat
   | 0, _, _ => throw .other
   | fuel + 1, acc, shift => do
-    let b ← readByteS
+    let b ← readByteM
     let acc' := acc + (b % 128) * 2 ^ shift
-    if b < 128 then pure acc' else readVarintLoopS fuel acc' (shift + 7)
+    if b < 128 then pure acc' else readVarintLoopM fuel acc' (shift + 7)
 
-def readVarintS : RM Nat := fun st => readVarintLoopS (st.abs.length + 1) 0 0 st
+def readVarintM : RM Nat := fun st => readVarintLoopM (st.abs.length + 1) 0 0 st
 
-def readCountS : RM Int := do
-  let u ← readVarintS
+def readCountM : RM Int := do
+  let u ← readVarintM
   if (u : Int) > INT_MAX then throw .invalidData else pure (u : Int)
 
-def readSignedCountS : RM Int := do
-  let u ← readVarintS
+def readSignedCountM : RM Int := do
+  let u ← readVarintM
   pure (unzigzag u)
 
-def readInt16S : RM Nat := do
-  let h ← readByteS
-  let l ← readByteS
+def readInt16M : RM Nat := do
+  let h ← readByteM
+  let l ← readByteM
   pure (h * 256 + l)
 
-def readInt32S : RM Nat := do
-  let h ← readInt16S
-  let l ← readInt16S
+def readInt32M : RM Nat := do
+  let h ← readInt16M
+  let l ← readInt16M
   pure (h % 65536 * 65536 + l % 65536)
 
-def readInt64S : RM Int := do
-  let h ← readInt32S
-  let l ← readInt32S
+def readInt64M : RM Int := do
+  let h ← readInt32M
+  let l ← readInt32M
   pure (int64Overflow ((h % 4294967296 * 4294967296 + l % 4294967296 : Nat) : Int))
 
-def readMillisecondsS : RM Int := do
-  let first ← readByteS
+def readMillisecondsM : RM Int := do
+  let first ← readByteM
   if first < 128 then pure ((first : Int) * MS30MIN - MsPD)
   else
     let flag := first / 32
     let firstData := first % 32
     if flag = 4 then do
-      let b ← readByteS
+      let b ← readByteM
       pure (((firstData * 256 + b : Nat) : Int) * MSMIN - MsPD)
     else if flag = 5 then do
-      let w ← readInt16S
+      let w ← readInt16M
       pure (((firstData * 65536 + w % 65536 : Nat) : Int) * MSSEC - MsPD)
     else if flag = 6 then do
-      let b ← readByteS
-      let w ← readInt16S
+      let b ← readByteM
+      let w ← readInt16M
       pure (((firstData * 16777216 + b * 65536 + w % 65536 : Nat) : Int) - MsPD)
     else throw .invalidData
 
-def readOffsetS : RM Offset := do
-  let ms ← readMillisecondsS
+def readOffsetM : RM Offset := do
+  let ms ← readMillisecondsM
   let o ← (Offset.fromMilliseconds ms : R Offset)
   pure o
 
-def readTransitionS (previous : Option Instant) : RM Instant := do
-  let value ← readCountS
+def readTransitionM (previous : Option Instant) : RM Instant := do
+  let value ← readCountM
   if value < MIN_HOURS then
     if value = MARKER_MIN then pure Instant.beforeMin
     else if value = MARKER_MAX then pure Instant.afterMax
     else if value = MARKER_RAW then do
-      let t ← readInt64S
+      let t ← readInt64M
       let i ← (Instant.fromUnixTicks t : R Instant)
       pure i
     else throw .invalidData
@@ -146,9 +146,9 @@ def readTransitionS (previous : Option Instant) : RM Instant := do
 
 /-- `read_string`. Without a pool the payload is taken from the STREAM (`self.__input.read(remaining)`), not
     through `read_byte`: the look-ahead buffer is not consulted there (it is empty, because `read_count` has just
-    called `read_byte` — proved as `readStringS_refines`). -/
-def readStringS : RM Str := do
-  let n ← readCountS
+    called `read_byte` — proved as `readStringM_refines`). -/
+def readStringM : RM Str := do
+  let n ← readCountM
   let st ← get
   match st.pool with
   | none =>
@@ -162,46 +162,46 @@ def readStringS : RM Str := do
     | some s => pure s
     | none => throw .invalidData
 
-def readNS {α} (f : RM α) : Nat → RM (List α)
+def readNM {α} (f : RM α) : Nat → RM (List α)
   | 0 => pure []
   | n + 1 => do
     let a ← f
-    let as ← readNS f n
+    let as ← readNM f n
     pure (a :: as)
 
-def readPairS : RM (Str × Str) := do
-  let k ← readStringS
-  let v ← readStringS
+def readPairM : RM (Str × Str) := do
+  let k ← readStringM
+  let v ← readStringM
   pure (k, v)
 
-def readDictionaryS : RM (List (Str × Str)) := do
-  let n ← readCountS
-  let es ← readNS readPairS n.toNat
+def readDictionaryM : RM (List (Str × Str)) := do
+  let n ← readCountM
+  let es ← readNM readPairM n.toNat
   pure (es.foldl (fun d e => dictInsert d e.1 e.2) [])
 
 /-- `_ZoneYearOffset.read(reader)`: a sequence of calls on the reader, then the constructor -/
-def readYearOffsetS : RM ZoneYearOffset := do
-  let flags ← readByteS
+def readYearOffsetM : RM ZoneYearOffset := do
+  let flags ← readByteM
   match TransitionMode.ofNat? (flags / 32) with
   | none => throw .valueError
   | some mode =>
     let dow : Int := ((flags / 4 % 8 : Nat) : Int)
     let advance := flags / 2 % 2 == 1
     let addDay := flags % 2 == 1
-    let month ← readCountS
-    let dom ← readSignedCountS
-    let ms ← readMillisecondsS
+    let month ← readCountM
+    let dom ← readSignedCountM
+    let ms ← readMillisecondsM
     let tod ← (localTimeFromMillis ms : R Int)
     let y ← (yearOffsetCtor mode month dom dow advance tod addDay : R ZoneYearOffset)
     pure y
 
 /-- `_ZoneRecurrence.read(reader)` -/
-def readRecurrenceS : RM ZoneRecurrence := do
-  let name ← readStringS
-  let savings ← readOffsetS
-  let yo ← readYearOffsetS
-  let fy ← readCountS
-  let ty ← readCountS
+def readRecurrenceM : RM ZoneRecurrence := do
+  let name ← readStringM
+  let savings ← readOffsetM
+  let yo ← readYearOffsetM
+  let fy ← readCountM
+  let ty ← readCountM
   let z ← (recurrenceCtor ⟨name, savings, yo, if fy = 0 then INT_MIN else fy, ty⟩ : R ZoneRecurrence)
   pure z
 
@@ -229,17 +229,17 @@ def Val.kind : Val → Kind
   | .trans p _ => .trans p | .str _ => .str | .dict _ => .dict | .yo _ => .yo | .recur _ => .recur
 
 /-- one read call on the reader object -/
-def readValS : Kind → RM Val
-  | .byte => do let b ← readByteS; pure (.byte (b : Int))
-  | .count => do let n ← readCountS; pure (.count n)
-  | .scount => do let n ← readSignedCountS; pure (.scount n)
-  | .ms => do let v ← readMillisecondsS; pure (.ms v)
-  | .offset => do let o ← readOffsetS; pure (.offset o)
-  | .trans p => do let i ← readTransitionS p; pure (.trans p i)
-  | .str => do let s ← readStringS; pure (.str s)
-  | .dict => do let d ← readDictionaryS; pure (.dict d)
-  | .yo => do let y ← readYearOffsetS; pure (.yo y)
-  | .recur => do let z ← readRecurrenceS; pure (.recur z)
+def readValM : Kind → RM Val
+  | .byte => do let b ← readByteM; pure (.byte (b : Int))
+  | .count => do let n ← readCountM; pure (.count n)
+  | .scount => do let n ← readSignedCountM; pure (.scount n)
+  | .ms => do let v ← readMillisecondsM; pure (.ms v)
+  | .offset => do let o ← readOffsetM; pure (.offset o)
+  | .trans p => do let i ← readTransitionM p; pure (.trans p i)
+  | .str => do let s ← readStringM; pure (.str s)
+  | .dict => do let d ← readDictionaryM; pure (.dict d)
+  | .yo => do let y ← readYearOffsetM; pure (.yo y)
+  | .recur => do let z ← readRecurrenceM; pure (.recur z)
 
 /-- the same read as a pure function of the remaining bytes (the readers of `Codec/Prim.lean`, `Zone.lean`,
     `Tail.lean`) -/
@@ -332,8 +332,8 @@ inductive ROut where
 
 def stepR (a : RAct) : RM ROut :=
   match a with
-  | .peek => do let b ← hasMoreDataS; pure (.peeked b)
-  | .read k => do let v ← readValS k; pure (.value v)
+  | .peek => do let b ← hasMoreDataM; pure (.peeked b)
+  | .read k => do let v ← readValM k; pure (.value v)
   | .pool p => do modify (fun st => { st with pool := p.apply st.pool }); pure .poolOp
 
 def runReader : List RAct → RState → List ROut × RState
@@ -367,26 +367,26 @@ def docPools : List Item → Pool → Option (List Pool)
   | .pool a :: r, p => docPools r (a.apply p)
   | .endDoc :: r, p => (docPools r p).map (p :: ·)
 
-/-- split a script into documents (a trailing document without `endDoc` counts) -/
-def splitDocs : List Item → List (List Item)
-  | [] => [[]]
-  | .endDoc :: r => [] :: splitDocs r
-  | i :: r =>
-    match splitDocs r with
-    | d :: ds => (i :: d) :: ds
-    | [] => [[i]]
+/-- `rpool[:] = p` on the reading side (nothing to do for a reader without a pool) -/
+def setAct : Pool → List RAct
+  | some l => [RAct.pool (.set l)]
+  | none => []
 
-def docReaderActs (doc : List Item) : List RAct :=
-  doc.flatMap fun
-    | .value n v => List.replicate n RAct.peek ++ [RAct.read v.kind]
-    | _ => []
+/-- the reader actions of a script after the current document's pool has been set: the reads with their peeks;
+    at every `endDoc` the reader's pool sequence is set to the pool the writer ended the NEXT document with -/
+def readerActsAux : List Item → List Pool → List RAct
+  | [], _ => []
+  | .value n v :: r, ps => List.replicate n RAct.peek ++ RAct.read v.kind :: readerActsAux r ps
+  | .pool _ :: r, ps => readerActsAux r ps
+  | .endDoc :: r, [] => readerActsAux r []
+  | .endDoc :: r, p :: ps => setAct p ++ readerActsAux r ps
 
-/-- reader actions for the whole script: per document, set the pool, then the reads with their peeks; finally
-    `endPeeks` peeks -/
+/-- reader actions for the whole script (`pools` = `docPools`: the writer's pool at the end of each document):
+    set the pool of the first document, read everything back, finally `endPeeks` peeks -/
 def sessionReaderActs (items : List Item) (pools : List Pool) (endPeeks : Nat) : List RAct :=
-  ((splitDocs items).zip pools).flatMap (fun (doc, p) =>
-    (match p with | some l => [RAct.pool (.set l)] | none => []) ++ docReaderActs doc)
-  ++ List.replicate endPeeks RAct.peek
+  (match pools with
+   | [] => readerActsAux items []
+   | p :: ps => setAct p ++ readerActsAux items ps) ++ List.replicate endPeeks RAct.peek
 
 /-! ## text forms -/
 
